@@ -50,5 +50,32 @@ int main(int argc, char** argv)
 		if (n != 3 && n != 4) { printf("REPRODUCED second handle reports length %d\n", n); return 1; }
 		printf("OK\n"); return 0;
 	}
+	if (cmd == "battery") {               // small-scope exhaustive over the operations the C01 units verify, with an element type that owns heap memory and one that counts its life cycle
+		auto name = [](int i) { char b[80]; snprintf(b, 80, "element-%03d-with-a-heap-allocated-payload-%03d", i, i * 7 + 1); return std::string(b); };
+		auto eq = [](const Array<String>& a, const std::vector<std::string>& v) { if (a.length() != (int)v.size()) return false; for (int i = 0; i < a.length(); i++) if (std::string(*a[i], a[i].length()) != v[i]) return false; return true; };
+		for (int n = 0; n <= 9; n++) {
+			// insert(k, x) for a separate x and for x = a[src]; operator<< of an own element at every fill level; remove(i, c); resize both ways
+			for (int k = 0; k <= n; k++) for (int src = -1; src < n; src++) { Array<String> a; std::vector<std::string> v; for (int i = 0; i < n; i++) { a << String(name(i).c_str()); v.push_back(name(i)); }
+				std::string x = src < 0 ? name(500) : v[src]; if (src < 0) a.insert(k, String(x.c_str())); else a.insert(k, a[src]); v.insert(v.begin() + k, x);
+				if (!eq(a, v)) { printf("REPRODUCED Array<String>(%d).insert(%d, %s): differs from the reference sequence\n", n, k, src < 0 ? "x" : "a[src]"); return 1; } }
+			for (int src = 0; src < n; src++) { Array<String> a; std::vector<std::string> v; for (int i = 0; i < n; i++) { a << String(name(i).c_str()); v.push_back(name(i)); } a << a[src]; v.push_back(v[src]);
+				if (!eq(a, v)) { printf("REPRODUCED a << a[%d] with %d elements\n", src, n); return 1; } }
+			{ Array<String> a; std::vector<std::string> v; for (int i = 0; i < n; i++) { a << String(name(i).c_str()); v.push_back(name(i)); } a.append(a); std::vector<std::string> w = v; v.insert(v.end(), w.begin(), w.end());
+			  if (!eq(a, v)) { printf("REPRODUCED a.append(a) with %d elements\n", n); return 1; }
+			  Array<String> b; b << String("x"); b.append(a); if (b.length() != 2 * n + 1) { printf("REPRODUCED b.append(a) length\n"); return 1; } }
+			for (int i = 0; i < n; i++) for (int c = 0; i + c <= n; c++) { Counted::live = Counted::ctor = Counted::dtor = 0; { Array<Counted> a; std::vector<int> v; for (int q = 0; q < n; q++) { a << Counted(q); v.push_back(q); }
+				a.remove(i, c); v.erase(v.begin() + i, v.begin() + i + c); if (a.length() != (int)v.size()) { printf("REPRODUCED remove(%d,%d) of %d: length\n", i, c, n); return 1; }
+				for (int q = 0; q < a.length(); q++) if (a[q].v != v[q]) { printf("REPRODUCED remove(%d,%d) of %d: element %d\n", i, c, n, q); return 1; }
+				if (Counted::live != a.length()) { printf("REPRODUCED remove(%d,%d) of %d: %d elements alive, array holds %d (destroyed twice or not at all)\n", i, c, n, Counted::live, a.length()); return 1; } }
+				if (Counted::live != 0) { printf("REPRODUCED after the array is gone %d elements are still alive / destroyed twice\n", Counted::live); return 1; } }
+			for (int m = 0; m <= 12; m += 3) { Counted::live = 0; { Array<Counted> a; for (int q = 0; q < n; q++) a << Counted(q); a.resize(m); if (a.length() != m || Counted::live != m) { printf("REPRODUCED resize(%d) of %d elements: %d alive\n", m, n, Counted::live); return 1; }
+				for (int q = 0; q < m && q < n; q++) if (a[q].v != q) { printf("REPRODUCED resize(%d) lost element %d\n", m, q); return 1; } } if (Counted::live != 0) { printf("REPRODUCED life cycle after resize\n"); return 1; } }
+			// handles: copy, assignment, self-assignment, clear through one handle
+			{ Counted::live = 0; { Array<Counted> a; for (int q = 0; q < n; q++) a << Counted(q); Array<Counted> b = a, c; c = a; Array<Counted>& r = a; a = r; if (b.length() != n || c.length() != n || a.length() != n) { printf("REPRODUCED copy / assignment / self-assignment lengths\n"); return 1; }
+				for (int q = 0; q < n; q++) if (a[q].v != q || b[q].v != q || c[q].v != q) { printf("REPRODUCED copy / assignment contents\n"); return 1; } Array<Counted> d = a.clone(); if (Counted::live != 2 * n) { printf("REPRODUCED clone: %d alive, want %d\n", Counted::live, 2 * n); return 1; } }
+			  if (Counted::live != 0) { printf("REPRODUCED %d elements alive after all handles are gone\n", Counted::live); return 1; } }
+		}
+		printf("OK\n"); return 0;
+	}
 	return 2;
 }
